@@ -88,6 +88,18 @@ PROPS = {
                      "recommended_wnaf_* ranges - not completed", "ff::BitIterator itself (dependency; contract assumed)"],
         assumptions=[A['A3'], "ff::BitIterator contract assumed (dependency)", "group-level contracts of double / add_assign / add_assign_mixed are the statements of unit curve lifted through A3", A['TOOLS']],
     ),
+    'C04': dict(
+        units_quick=['codec', 'scalar'], units_thorough=['codec', 'scalar', 'curve'], timeout=600,
+        claim="the four decoders (real bodies of into_affine_unchecked and into_affine for G1/G2, compressed/uncompressed) equal the decoding functions "
+              "dec_* / chk_* of specs/codec.vrs, written from the property statement, for every byte string of the right length: form flag, then "
+              "infinity (all other bits zero) / sort flags, then coordinate range (each 48-byte big-endian block < q, all three flag bits cleared first), "
+              "then for compressed input point recovery from x, then (checked) curve equation and subgroup membership, in this order of rejection; "
+              "every index, slice read and unwrap() is proved safe (no panic). The subgroup / curve predicates are those of unit scalar (C07).",
+        not_covered=["get_point_from_x (sqrt and choice of root) enters through its contract gpfx (C18 scope)",
+                     "the text of the coordinate name inside CoordinateDecodingError", "PrimeFieldRepr::read_be and Fq::from_repr enter through assumed contracts (D1, C08)"],
+        assumptions=["D1 read_be on a byte slice consumes 48 bytes big-endian", "Fq::from_repr: Ok iff value < q (C08 contract)", A['A3'], A['TOOLS'],
+                     "rewrites R5 (map_err + ? -> match/return; iter().all -> verified helper all_zero)"],
+    ),
 }
 
 HOOK_COMMITS = []
